@@ -25,6 +25,7 @@ THEOREMS = [
     "C13_process_survives_os_exit", "C13_early_return_restores", "C13_pyproject_partial", "C13_pyproject_argv_restored",
     "C13_mutable_contents_partial", "C13_project_files_untouched_partial",
     "C13_unreadable_script_is_raise", "C13_pyproject_two_threads_cwd",
+    "C13_hook_removed_whatever_is_registered", "C13_meta_path_finder_refuted",
     "C13_threads_refuted", "C13_host_module_purged_refuted", "C13_real_fs_ops_refuted",
 ]
 RULE = ("(a) random op sequences (begin_patch / end_patch / patch enter / patch exit, direct set/del, module "
@@ -373,6 +374,9 @@ def gen_ops(rng, keys: List[Tuple[str, str]], cython: bool, n: int, case_id: int
     for j in range(n):
         r = rng.random()
         k = rng.choice(hot) if (hot and rng.random() < 0.3) else rng.choice(usable)
+        if not pyproject and rng.random() < 0.05:
+            ops.append(["F", int(rng.random() < 0.4), rng.randrange(1, 800)])
+            continue
         if rng.random() < 0.10:
             mk = rng.choice(MUTABLE_KEYS)
             ops.append(["M", mk[0], mk[1], rng.randrange(1, 99)])
@@ -525,6 +529,8 @@ def prog_tokens(case: Dict[str, Any], root: str) -> str:
             ops += ["S", hx(root if o[1] == "@ROOT" else o[1])]
         elif t == "M":
             ops += ["M", hx(o[1]), hx(o[2]), str(o[3])]
+        elif t == "F":
+            ops += ["F", str(o[1]), str(100 + o[2])]
     return " ".join([str(n)] + ops + [case["ending"]])
 
 
@@ -856,6 +862,9 @@ def coq_prog(case: Dict[str, Any], root: str) -> str:
         elif t == "M":
             k = key()
             ops.append("OMutate %s %s" % (k, nxt()))
+        elif t == "F":
+            fr = nxt()
+            ops.append("OMetaIns %s %s" % ("true" if fr == "1" else "false", nxt()))
     en = {"finish": "Finish", "raise": "Raise", "sysexit": "SysExit", "osexit": "OsExit", "unreadable": "Unreadable"}[nxt()]
     return "([%s], %s)" % ("; ".join(ops), en)
 
@@ -1057,7 +1066,13 @@ def oracle(case: Dict[str, Any], rec: Dict[str, Any], strict: bool = False) -> O
     if parts[2].split() != path0:
         return "sys.path changed"
     nmeta = int(rest[2 + npath])
-    if parts[3].split() != [str(i) for i in range(1, nmeta + 1)]:
+    meta1 = parts[3].split()
+    if not case.get("strict_meta"):
+        # finders the script registered itself (ids 100..899) are listed separately: C13-meta-path-finder-left
+        meta1 = [x for x in meta1 if not (100 <= int(x) < 998)]
+    if meta1 != [str(i) for i in range(1, nmeta + 1)]:
+        if "999" in meta1:
+            return "sys.meta_path changed: the analyser's ArchiveMetaHook is still registered"
         return "sys.meta_path changed"
     mods0 = rest[3 + npath + nmeta + 1:]
     m0 = sorted(mods0[i] + ":" + mods0[i + 1] for i in range(0, len(mods0), 2))
@@ -1139,6 +1154,15 @@ def search(ctx: Ctx) -> Optional[Dict[str, Any]]:
         c.pop("early", None)
         directed.append(c)
         i += 1
+    for pk in ("dir", "tgz", "zip"):
+        for front in (0, 1):
+            c = gen_case(rng, i, keys, real_fallback=False)
+            c.update({"kind": "setup", "packaging": pk, "name": "c13p%d" % i,
+                      "init": {"captured": True, "host_mods": [], "cwd_in_project": False}, "imports": [], "fops": [],
+                      "ops": [["F", front, 7]], "setup_at": 0, "ending": "finish"})
+            c.pop("early", None)
+            directed.append(c)
+            i += 1
     for kind in ("pyproject", "setup"):
         for en in ("finish", "raise", "sysexit"):
             c = gen_case(rng, i, keys, real_fallback=False)
